@@ -524,9 +524,9 @@ var borrowed = map[string][]borrow{
 	"C12": {{From: "C01", Rule: "C01.g3", As: "RECOUNT", Why: "the recount after the freeze hands the published list and the frozen count to the check"}, {From: "C16", Rule: "C16.COUNT", As: "COUNTERS", Why: "the alive-replica count handed to the check counts replicas only"}, {From: "C04", Rule: "C04.BASIS", As: "BASIS", Why: "the acknowledgement count sent to the master is computed from this iteration's list", Only: "count-basis:this-iteration"}},
 	"C03": {{From: "C19", Rule: "C19.SPAWN", As: "SPAWNLIFE", Why: "the syncer goroutine of the speed-up phase issues statements on other hosts without a lock check of its own: it must end when the phase returns"}, {From: "C02", Rule: "C02.AUTO-i", As: "QUORUMLOSS", Why: "a manager that released the lock after losing its quorum ends the iteration"}},
 	"C06": {{From: "C20", Rule: "C20.GO", As: "RETURNS", Why: "an attempt is counted, timed out and aborted only if the procedure returns: the forced read-only's helper goroutine cannot strand its caller", Only: "go@(*mysql.Node).SetReadOnlyWithForce"}, {From: "C02", Rule: "C02.AUTO-i", As: "QUORUMLOSS", Why: "a process that gave the lock away does not go on to process the request"}},
-	"C02": {{From: "C01", Rule: "C01.g8b", As: "ASYNCHATCH", Why: "no acknowledged loss: the catch-up wait is abandoned only through the async escape hatch, which requires async mode"}, {From: "C03", Rule: "C03.SESSION", As: "LOCKCACHE", Why: "one manager: the lock cache dies with the session"}},
-	"C07": {{From: "C16", Rule: "C16.COUNT", As: "COUNTERS", Why: "the successor re-approves an interrupted request with the same counters: they count reachable replicas whatever intermediate flags (offline mode) the interrupted run left"}, {From: "C03", Rule: "C03.SESSION", As: "LOCKCACHE", Why: "the lock re-checks stop a deposed manager only if the cache is dropped on session loss"}, {From: "C01", Rule: "C01.g6", As: "POSITIONS", Why: "a resumed run must see the received-but-unapplied tails again: positions include the retrieved set whatever the thread state"}},
-	"C10": {{From: "C13", Rule: "C13.CALLERS", As: "RELATIONS", Why: "repair's progress test uses 'ahead' on (new, old)"}},
+	"C02": {{From: "C05", Rule: "C05.APPROVE", As: "APPROVE", Why: "a fault that must not change the master (the master lost only its coordination session) is vetoed by approval: every other HA node still replicating"}, {From: "C11", Rule: "C11.LOSTDEF", As: "LOSTDEF", Why: "a returning old master with transactions the recorded master lacks is rebuilt, never re-admitted: 'permanently lost' includes diverged sets"}, {From: "C01", Rule: "C01.g8b", As: "ASYNCHATCH", Why: "no acknowledged loss: the catch-up wait is abandoned only through the async escape hatch, which requires async mode"}, {From: "C03", Rule: "C03.SESSION", As: "LOCKCACHE", Why: "one manager: the lock cache dies with the session"}},
+	"C07": {{From: "C06", Rule: "C06.AFTER", As: "OUTCOME", Why: "the request is kept until finished: a failed attempt is recorded as failed (the request is re-written), never as a success that deletes it"}, {From: "C16", Rule: "C16.COUNT", As: "COUNTERS", Why: "the successor re-approves an interrupted request with the same counters: they count reachable replicas whatever intermediate flags (offline mode) the interrupted run left"}, {From: "C03", Rule: "C03.SESSION", As: "LOCKCACHE", Why: "the lock re-checks stop a deposed manager only if the cache is dropped on session loss"}, {From: "C01", Rule: "C01.g6", As: "POSITIONS", Why: "a resumed run must see the received-but-unapplied tails again: positions include the retrieved set whatever the thread state"}},
+	"C10": {{From: "C18", Rule: "C18.FLAGS", As: "MAYWRITE", Why: "the master is brought back writable only if the disk guard's two flags are computed as specified (a flag that is wrongly cleared keeps a healthy master fenced for ever)"}, {From: "C13", Rule: "C13.CALLERS", As: "RELATIONS", Why: "repair's progress test uses 'ahead' on (new, old)"}},
 	"C14": {{From: "C15", Rule: "C15.IDENTITY", As: "IDENTITY", Why: "'no configuration = priority 0' is an errors.Is test on the wrapper's error"}},
 	"C09": {{From: "C05", Rule: "C05.SITES", As: "REQUEST", Why: "light mode recognises a failover request by the transition the filing helper writes"}},
 }
